@@ -40,7 +40,7 @@ RELEVANT = {
     "C13": {"gdm", "gdum", "get_mut", "sweep"},
     "C14": {"eq", "sweep"},
     "C19": {"fmt", "iter", "alg", "drain", "into_iter", "sweep"},
-    "C20": {"serde", "serde_wrong", "serde_zst", "eq", "len", "get", "iter"},
+    "C20": {"serde", "serde_wrong", "serde_zst", "deser", "eq", "len", "get", "iter"},
 }
 
 # which of the harness-side oracles count for which property
